@@ -26,6 +26,9 @@ Oth(s) == [kind |-> "oth", str |-> s]
 \*  8: as 1, xout/yout passed by keyword (replay schedules only)
 \*  9: arrays + scalars 1, 0, False      (str() atoms: digit tokens 2000+d, False = 1002)
 \* 10: arrays + scalars 10, False        -- same concatenated str() as 9
+\* 13/14 (replay schedules only): arrays + the keyword arguments samples,
+\*     remove_invalid, ret_idx given in different orders with different
+\*     bindings whose values, read in the order given, coincide
 \* 11: x = 3 elems, y = 3 elems of other bytes                  (f8)
 \* 12: as 11, the same bytes in the opposite byte order (same shape and item
 \*     size, other values)
@@ -53,6 +56,11 @@ MCArgs(p) ==
                      Oth(<<NoneTok>>), Oth(<<NoneTok>>)>>
       [] p = 12 -> <<Arr(<<41,42,43,44,45,46>>, F8B, <<3>>), Arr(<<47,48,49,50,51,52>>, F8B, <<3>>),
                      Oth(<<NoneTok>>), Oth(<<NoneTok>>)>>
+      \* (bound parameters in signature order: samples, remove_invalid, ret_idx)
+      [] p = 13 -> <<Arr(<<1,2,3,4,5,6>>, F8, <<3>>), Arr(<<7,8,9,10,11,12>>, F8, <<3>>),
+                     Oth(<<2007>>), Oth(<<1001>>), Oth(<<1002>>)>>
+      [] p = 14 -> <<Arr(<<1,2,3,4,5,6>>, F8, <<3>>), Arr(<<7,8,9,10,11,12>>, F8, <<3>>),
+                     Oth(<<2007>>), Oth(<<1002>>), Oth(<<1001>>)>>
       [] p = 8 -> <<Arr(<<1,2,3,4>>, F8, <<2>>), Arr(<<5,6,7,8>>, F8, <<2>>),
                     Arr(<<9,10>>, F8, <<1>>), Arr(<<11,12>>, F8, <<1>>)>>
 \* semantic identity: memory layout is irrelevant (6 = 3)
@@ -64,6 +72,8 @@ HFuncs == 1..4
 HPool == 1..10
 \* second replay family: the byte-order pair with the plain/f4 members
 HPool2 == {3, 4, 11, 12}
+\* third replay family: keyword arguments in different orders
+HPool3 == {9, 13, 14}
 
 Depth == TLCGet("level") <= MaxDepth
 
